@@ -126,8 +126,11 @@ func Check(c *Case) (res kit.Result) {
 		if e == nil || c.C2 < 1 || c.C2 > 16 || c.C2 == c.C1 {
 			return
 		}
-		if c.P1 < 0 || c.P1 >= c.C1 || c.P2 < 0 || c.P2 >= c.C2 {
-			return
+		if c.P1 < 0 || c.P1 >= c.C1 || c.P2 < 0 || c.P2 >= c.C2 || c.F1*c.C1+c.P1 == 0 || c.F2*c.C2+c.P2 == 0 {
+			return // the property speaks of non-empty buffers
+		}
+		if c.F1 == 0 || c.F2 == 0 {
+			res.Class("operandHoldsLessThanOneFrame")
 		}
 		src := mkOperand(c.S, c.C1, c.A, c.F1, c.Spare, c.P1)
 		dst := mkOperand(c.D, c.C2, c.A, c.F2, c.Spare, c.P2)
@@ -150,8 +153,11 @@ func Check(c *Case) (res kit.Result) {
 		if c.C2 < 1 || c.C2 > 16 || c.C2 == c.C1 {
 			return
 		}
-		if c.P1 < 0 || c.P1 >= c.C1 || c.P2 < 0 || c.P2 >= c.C2 {
-			return
+		if c.P1 < 0 || c.P1 >= c.C1 || c.P2 < 0 || c.P2 >= c.C2 || c.F1*c.C1+c.P1 == 0 || c.F2*c.C2+c.P2 == 0 {
+			return // the property speaks of non-empty buffers
+		}
+		if c.F1 == 0 || c.F2 == 0 {
+			res.Class("operandHoldsLessThanOneFrame")
 		}
 		dst := mkOperand(c.S, c.C1, c.A, c.F1, c.Spare, c.P1)
 		src := mkOperand(c.S, c.C2, c.A, c.F2, c.Spare, c.P2)
@@ -388,6 +394,13 @@ func Gen(t *rapid.T) *Case {
 		if rapid.Bool().Draw(t, "partial") {
 			c.P1 = rapid.IntRange(0, c.C1-1).Draw(t, "p1")
 			c.P2 = rapid.IntRange(0, c.C2-1).Draw(t, "p2")
+			// non-empty operands that hold less than one frame
+			if c.P1 > 0 && rapid.IntRange(0, 2).Draw(t, "lessThanAFrame1") == 0 {
+				c.F1 = 0
+			}
+			if c.P2 > 0 && rapid.IntRange(0, 2).Draw(t, "lessThanAFrame2") == 0 {
+				c.F2 = 0
+			}
 		}
 	case "append":
 		c.S = rapid.SampledFrom(names).Draw(t, "type")
@@ -395,6 +408,13 @@ func Gen(t *rapid.T) *Case {
 		if rapid.Bool().Draw(t, "partial") {
 			c.P1 = rapid.IntRange(0, c.C1-1).Draw(t, "p1")
 			c.P2 = rapid.IntRange(0, c.C2-1).Draw(t, "p2")
+			// non-empty operands that hold less than one frame
+			if c.P1 > 0 && rapid.IntRange(0, 2).Draw(t, "lessThanAFrame1") == 0 {
+				c.F1 = 0
+			}
+			if c.P2 > 0 && rapid.IntRange(0, 2).Draw(t, "lessThanAFrame2") == 0 {
+				c.F2 = 0
+			}
 		}
 	case "readStriped", "writeStriped":
 		c.S = rapid.SampledFrom(names).Draw(t, "s")
